@@ -30,6 +30,7 @@ LEVEL_TEXT = ("Exploration by generated-input search: for every match, the repor
               "decoding off always, on when the text has no backslash) must resolve to the same object; the parent chain "
               "must shorten the location one step at a time; equal paths iff same node. Every delicate member name x 3 "
               "query shapes is enumerated exhaustively.")
+LEVEL_TEXT += ' Also: indices and slice bounds spelled with non-ASCII decimal digits on objects that have members named by every spelling (13 spellings x 11 positions x 3 documents, exhaustive).'
 BUDGET_S = {"quick": 70, "thorough": 600}
 RULE = ("Queries from the C01/C02 generators ($-rooted, no keys selector; emphasis on negative indices, negative-step "
         "slices, descendant segments, filters) over documents with names that need escaping in a path or pointer and with "
